@@ -265,7 +265,7 @@ def operand_pool(tier):
                 pool.append((list(lens), d))
     if tier != "quick":
         for lens in itertools.product(range(3), repeat=3):
-            for d in dims_variants(lens, max_perms=2):
+            for d in dims_variants(lens, max_perms=1, mixed=False):
                 pool.append((list(lens), d))
     return pool
 
